@@ -145,7 +145,9 @@ class QuickSampler:
             )
             if not self.photon_counting:
                 out_states = [s for s in out_states if max(s, default=0) <= 1]
-            out_states = [s for s in out_states if self.post_select.validate(s)]
+            out_states = [
+                s for s in out_states if self.post_select.validate(State(s))
+            ]
             if not out_states:
                 raise ValueError(
                     "Heralding function removed all possible outputs."
